@@ -1,5 +1,6 @@
 #include <algorithm>
 #include <nano/core/random.h>
+#include <nano/core/verif.h>
 
 using namespace nano;
 
@@ -11,6 +12,12 @@ rng_t nano::make_rng(seed_t seed)
     }
     else
     {
+#ifdef NANO_VERIF
+        if (const auto dseed = verif::default_seed(); dseed >= 0)
+        {
+            return rng_t{static_cast<rng_t::result_type>(dseed)};
+        }
+#endif
         auto source = std::random_device{};
         return rng_t{static_cast<rng_t::result_type>(source())};
     }
